@@ -12,3 +12,5 @@ def check(ck):
     ck.run(H.check_resolver_closures, ck, "C13.R3")
     ck.run(H.check_field_call_lint, ck, "C13.R4")
     ck.run(H.check_version_taint, ck, "C13.R5")
+    # "exactly the version a fresh process computes": nothing remembered enters a recomputation
+    ck.run(H.check_recompute_from_scratch, ck, "C13.R7")
